@@ -2,6 +2,7 @@
 package c02
 
 import (
+	"bytes"
 	"fmt"
 	"os"
 	"os/signal"
@@ -13,6 +14,7 @@ import (
 
 	"github.com/lianxiangcloud/linkchain/consensus"
 	"github.com/lianxiangcloud/linkchain/libs/common"
+	"github.com/lianxiangcloud/linkchain/libs/ser"
 	"github.com/lianxiangcloud/linkchain/types"
 	"pgregory.net/rapid"
 
@@ -253,6 +255,9 @@ func runProposer(t *rapid.T) {
 	}
 	startSig := atomic.LoadInt32(&sigterms)
 	signedSeen := map[int]int{}
+	starved := map[string]bool{}
+	nilVoted := map[string]bool{}
+	starveSeen := 0
 	txNonce := uint64(0)
 	for step := 0; step < 900; step++ {
 		// a little honest traffic so blocks are not all empty
@@ -269,6 +274,13 @@ func runProposer(t *rapid.T) {
 				continue
 			}
 			rs := nd.CS.GetRoundState()
+			// ... and takes part in the voting with nil votes (once per round): with them a starved round ends in a nil POLKA,
+			// which a later proposal can name as its proof-of-lock round
+			if vk := fmt.Sprintf("%d/%d", rs.Height, rs.Round); !nilVoted[vk] {
+				nilVoted[vk] = true
+				n.Inject(byzKey, &consensus.VoteMessage{Vote: n.SignedVote(byzKey, types.VoteTypePrevote, rs.Height, rs.Round, types.BlockID{})})
+				n.Inject(byzKey, &consensus.VoteMessage{Vote: n.SignedVote(byzKey, types.VoteTypePrecommit, rs.Height, rs.Round, types.BlockID{})})
+			}
 			prop := rs.Validators.GetProposer()
 			key := fmt.Sprintf("%d/%d", rs.Height, rs.Round)
 			if string(prop.Address) != string(vals[byzKey].Addr) || proposed[key] || rs.Step > 3 /* past propose */ {
@@ -278,6 +290,7 @@ func runProposer(t *rapid.T) {
 			corrupt := rs.Height >= targetHeight && rs.Round >= targetRound || (rs.Height > targetHeight)
 			var at *attack
 			mutate := func(b *types.Block) {}
+			noop := false
 			if corrupt {
 				at = &attack{height: rs.Height, round: rs.Round}
 				k := rapid.IntRange(1, 3).Draw(t, "nops")
@@ -292,9 +305,15 @@ func runProposer(t *rapid.T) {
 					at = nil
 				} else {
 					mutate = func(b *types.Block) {
+						before, _ := ser.EncodeToBytes(b)
 						for _, o := range chosen {
 							o.apply(t, b, n)
 							at.ops = append(at.ops, o.name)
+						}
+						// operators can cancel each other (the second "wrong proposer" may put the right one back): a block
+						// whose bytes are what they were is not corrupted
+						if after, _ := ser.EncodeToBytes(b); bytes.Equal(before, after) {
+							noop = true
 						}
 					}
 				}
@@ -314,8 +333,26 @@ func runProposer(t *rapid.T) {
 				n.Logf("step %d: byzantine proposer could not build a block for %s: %v", step, key, pan)
 				continue
 			}
+			// From here on the block is what every receiver sees: decoded from its bytes.  The in-memory object the operators
+			// worked on carries memoised hashes (EvidenceData.Hash, Block.Hash) that may describe an earlier content.
+			if bz, err := ser.EncodeToBytes(blk); err == nil {
+				var nb *types.Block
+				if ser.DecodeBytes(bz, &nb) == nil && nb != nil {
+					blk = nb
+				}
+			}
 			for _, m := range msgs {
 				n.Inject(byzKey, m)
+			}
+			if noop {
+				at = nil
+				vstat.Label("operators_cancelled_each_other")
+			}
+			if at != nil && rs.Round > 0 {
+				vstat.Label("corrupt_proposal_in_round_ge_1")
+				if p, ok := msgs[0].(*consensus.ProposalMessage); ok && p.Proposal.POLRound >= 0 {
+					vstat.Label("corrupt_proposal_names_a_pol_round")
+				}
 			}
 			if at != nil {
 				at.block = blk
@@ -360,6 +397,35 @@ func runProposer(t *rapid.T) {
 				n.Logf("step %d: byzantine proposer signs a proposal for %s corrupted by %v (application check alone passes: %v)", step, key, at.ops, at.passes)
 			} else {
 				n.Logf("step %d: byzantine proposer signs an honest proposal for %s", step, key)
+			}
+		}
+		// Some rounds of honest proposers are starved (their proposal reaches nobody): the round ends in a nil polka, the next
+		// round's proposer - possibly the Byzantine one - proposes in a round >= 1 and can name that polka as its proof-of-lock round.
+		for ; starveSeen < len(n.Pool); starveSeen++ {
+			e := n.Pool[starveSeen]
+			if e.Byz {
+				continue
+			}
+			var key string
+			switch m := e.Msg.(type) {
+			case *consensus.ProposalMessage:
+				key = fmt.Sprintf("%d/%d", m.Proposal.Height, m.Proposal.Round)
+				if _, seen := starved[key]; !seen {
+					starved[key] = m.Proposal.Round < 3 && rapid.IntRange(0, 2).Draw(t, "starve") == 0
+					if starved[key] {
+						n.Logf("step %d: the honest proposal for %s reaches nobody", step, key)
+						vstat.Label("honest_round_starved")
+					}
+				}
+			case *consensus.BlockPartMessage:
+				key = fmt.Sprintf("%d/%d", m.Height, m.Round)
+			}
+			if key != "" && starved[key] {
+				for _, nd := range n.Nodes {
+					if nd.Idx != e.From {
+						nd.Delivered[starveSeen] = true
+					}
+				}
 			}
 		}
 		// fair delivery round: every node gets everything it has not seen, then idle nodes fire their newest timeout
